@@ -16,6 +16,7 @@ package validate
 
 import (
 	"encoding/json"
+	"math"
 	"reflect"
 
 	"github.com/go-openapi/errors"
@@ -187,6 +188,12 @@ func (s *SchemaValidator) Validate(data interface{}) *Result {
 	isnumber := s.Schema.Type.Contains(numberType) || s.Schema.Type.Contains(integerType)
 	if num, ok := data.(json.Number); ok && isnumber {
 		in, erri := num.Int64()
+		if erri != nil {
+			// an integer may be spelt with a fraction or an exponent ("15.0", "14e1"): it is converted when this is exact
+			if f, errf := num.Float64(); errf == nil && f == math.Trunc(f) && math.Abs(f) < 1<<53 {
+				in, erri = int64(f), nil
+			}
+		}
 		// avoid lossy conversion; a value which is not an integer is still a number when the schema allows both
 		if s.Schema.Type.Contains(integerType) && (erri == nil || !s.Schema.Type.Contains(numberType)) {
 			if erri != nil {
